@@ -18,7 +18,12 @@ fn tagnum(t: ChangeTag) -> i64 {
 /// alternating op list: run lengths from `lens`, kinds of the change runs from `kinds`
 /// (1 = Delete, 2 = Insert, 3 = Replace), starting with an Equal run iff `lead_eq`.
 pub fn alternating_ops(lens: &[usize], kinds: &[u8], lead_eq: bool) -> Vec<DiffOp> {
-    let (mut o, mut n) = (0usize, 0usize);
+    alternating_ops_at(lens, kinds, lead_eq, 0, 0)
+}
+
+/// the same starting at arbitrary base offsets (op lists of sub-range diffs)
+pub fn alternating_ops_at(lens: &[usize], kinds: &[u8], lead_eq: bool, o0: usize, n0: usize) -> Vec<DiffOp> {
+    let (mut o, mut n) = (o0, n0);
     let mut ops = vec![];
     let mut eq = lead_eq;
     let mut ki = 0;
@@ -132,6 +137,10 @@ pub fn drive_c12(a: &Args, out: &mut Out) {
             .collect();
         let kinds = [rng.range(1, 3) as u8, rng.range(1, 3) as u8, rng.range(1, 3) as u8];
         let ops = alternating_ops(&lens, &kinds, rng.chance(1, 2));
+        emit_group(&ops, n, out);
+        // op lists of sub-range diffs: different base offsets on the two sides
+        let (o0, n0) = (rng.below(9), rng.below(9));
+        let ops = alternating_ops_at(&lens, &kinds, rng.chance(2, 3), o0, n0);
         emit_group(&ops, n, out);
     }
     for _ in 0..nrand / 10 {
@@ -308,13 +317,21 @@ pub fn drive_c13(a: &Args, out: &mut Out) {
                 .iter()
                 .map(|op| Value::Array(op.iter_changes(&x[..], &y[..]).map(|c| change_json(&c)).collect()))
                 .collect();
-            (ops_json(diff.ops()), all, per, ops_json(&ops), per2)
+            // a raw script (consecutive deletes / inserts / equals are not merged) re-applied op by
+            // op to one capturing hook must come back unchanged
+            let raw = random_script(&mut rng, &x, &y);
+            let mut cap = Capture::new();
+            for op in &raw {
+                op.apply_to_hook(&mut cap).unwrap();
+            }
+            (ops_json(diff.ops()), all, per, ops_json(&ops), per2, ops_json(&raw), ops_json(cap.ops()))
         });
         match r {
-            Some((dops, all, per, ops2, per2)) => out.emit(&json!({"ev":"expand_all","case":case,"panic":false,
-                "old":seq_json(&x),"new":seq_json(&y),"ops":dops,"all":all,"per_op":per,"ops2":ops2,"per_op2":per2})),
+            Some((dops, all, per, ops2, per2, raw, recap)) => out.emit(&json!({"ev":"expand_all","case":case,"panic":false,
+                "old":seq_json(&x),"new":seq_json(&y),"ops":dops,"all":all,"per_op":per,"ops2":ops2,"per_op2":per2,
+                "raw":raw,"recaptured":recap})),
             None => out.emit(&json!({"ev":"expand_all","case":case,"panic":true,"old":seq_json(&x),"new":seq_json(&y),
-                "ops":[],"all":[],"per_op":[],"ops2":[],"per_op2":[]})),
+                "ops":[],"all":[],"per_op":[],"ops2":[],"per_op2":[],"raw":[],"recaptured":[]})),
         }
     }
 }
